@@ -9,6 +9,7 @@ package main
 
 import (
 	"encoding/json"
+	"errors"
 	"flag"
 	"fmt"
 	"os"
@@ -40,6 +41,7 @@ type Op struct {
 	T *tailVariant `json:"t,omitempty"` // crash: torn tail variant
 	// RLIMIT_FSIZE slack for an injected append failure: how many bytes of the batch still fit
 	S int `json:"s,omitempty"`
+	Q bool `json:"q,omitempty"` // quiet: run on both sides, compare the outcome, nothing else (the long run-up to a cleanup)
 	A int `json:"a,omitempty"` // crash: how far undurable watermark renames are undone (0: not at all)
 }
 
@@ -57,12 +59,33 @@ func (o Op) String() string {
 	return o.K
 }
 
+// fault translates the harness' name of an injected failure into the model's: several ways of
+// making the real code fail map to one failure of the model.
+//   append (RLIMIT_FSIZE: the write fails part-way), fsync (the write and the sync succeed, the sync is
+//   reported as failed: utils/verifhook.Fail), prewrite (fails before a byte is written)   -> append
+//   norepair (append fails part-way, then the truncation of the tail repair fails)         -> norepair
+//   wmsync / wmsyncf, rotate / rotatef, unlink:k / unlinkf:k: by resource limit / by hook  -> wmsync, rotate, unlink:k
 func fault(f string) string {
-	if f == "" {
+	switch {
+	case f == "":
 		return "none"
+	case f == "fsync" || f == "prewrite":
+		return "append"
+	case f == "wmsyncf":
+		return "wmsync"
+	case f == "rotatef":
+		return "rotate"
+	case strings.HasPrefix(f, "unlinkf:"):
+		return "unlink:" + strings.TrimPrefix(f, "unlinkf:")
 	}
 	return f
 }
+
+// failSink decides, for the operation that is running, whether a failure-injection point of the
+// real code (utils/verifhook.Fail) reports an error.
+var failSink func(point string) error
+
+var errInjected = fmt.Errorf("injected by the C14 harness")
 
 type call struct {
 	Del bool
@@ -164,7 +187,9 @@ type runner struct {
 	sawGC    bool
 	hot      int // steps left in which every image is checked
 	replayed bool
-	tainted  bool                // a violation was already reported for this history
+	sigs     map[string]bool     // violation signatures already reported for this history
+	lastFlushFailed bool         // the previous flush of this process returned an error
+	blocked  bool                // a tail repair was made to fail: the writer refuses on purpose
 	viol     func(lib.Violation) // where violations go (the per-signature collector, or a shrink trial)
 	sweeps   int        // byte-offset sweeps left for this history (thorough tier)
 	hooked   []hookSnap // copies of the directory taken at the crash points of the running operation
@@ -276,7 +301,11 @@ func (r *runner) record(point string) {
 }
 
 func (r *runner) ask(line string) string {
-	ans, err := r.drv.Ask(line)
+	var ans string
+	var err error
+	if !lib.WithDeadline(60*time.Second, func() { ans, err = r.drv.Ask(line) }) {
+		err = fmt.Errorf("no answer within 60 s")
+	}
 	if err != nil {
 		r.res.Fatalf("%s step %d: driver died or did not answer %q: %v", r.name, len(r.log), line, err)
 		r.failed = true
@@ -526,8 +555,12 @@ func (r *runner) checkImage(cop, ft string, idx int, b base, mask uint64, alt in
 	r.real.tmpMax = maxDel(r.acked, r.calls)
 	dir, err := r.real.materialise(img, tv, r.rng)
 	if err != nil {
-		// the bytes of a batch that never reached the disk are unknown (failed flush): skip
-		r.res.Hit("image:not-materialisable")
+		if errors.Is(err, errNoBytes) {
+			// the bytes of a batch that never reached the disk (failed flush): nothing to build
+			r.res.Hit("image:not-materialisable")
+		} else {
+			r.res.Fatalf("%s step %d: cannot build image %q: %v", r.name, len(r.log), parts[0], err)
+		}
 		return
 	}
 	hasG := false
@@ -670,7 +703,7 @@ func (r *runner) imagesOf(cop, ft string, bs []base, every bool) {
 func baseOf(point string, o Op, bs []base, nthRemoved, removedTotal int) int {
 	switch point {
 	case "walstore:flush:after-append-sync":
-		if o.F == "append" {
+		if fault(o.F) == "append" {
 			return tagIndex(bs, "repaired", 0)
 		}
 		return tagIndex(bs, "full", 0)
@@ -880,6 +913,7 @@ func descEq(a, b diskDesc) bool {
 
 // compareState compares LoadAllEntries of the live store and the directory with the model.
 func (r *runner) compareState(step string) {
+	tornTrailerOK := strings.HasSuffix(step, "closewriter-norepair")
 	if r.alive && r.real.st != nil {
 		got, err := loadReal(r.real.st)
 		ms := r.ask("load")
@@ -893,6 +927,11 @@ func (r *runner) compareState(step string) {
 		rd, err := r.real.observe(r.real.db, true)
 		md, perr := parseDisk(r.ask("disk"))
 		r.res.Compared(1)
+		if tornTrailerOK && len(md.Files) > 0 && len(md.Files) == len(rd.Files) {
+			// the hook reports a completed writer.Close and the truncation as failed: the real log keeps a
+			// complete EOF trailer where the model (a real failure) has a torn one
+			md.Files[len(md.Files)-1].Garbage = rd.Files[len(rd.Files)-1].Garbage
+		}
 		if err != nil || perr != nil || !descEq(rd, md) {
 			r.mismatch("directory", step, md.String(), fmt.Sprintf("%s %v", rd.String(), err))
 		}
@@ -930,6 +969,9 @@ func lowestFreeFd() uint64 {
 //              non-empty directory (os.Remove fails with ENOTEMPTY); it is put back afterwards from
 //              its hard link.
 type injector struct {
+	op       string         // flush | close
+	seen     map[string]int // how often each failure point was reached
+	cleanup  bool           // the model expects this operation to run the cleanup
 	r        *runner
 	f        string
 	k        int      // unlink: which removal fails
@@ -941,8 +983,44 @@ type injector struct {
 	injected bool
 }
 
-func (r *runner) newInjector(o Op) *injector {
-	in := &injector{r: r, f: o.F, k: -1}
+// fail is the decision at a failure-injection point of the real code.
+func (in *injector) fail(point string) error {
+	n := in.seen[point]
+	in.seen[point] = n + 1
+	hit := false
+	switch in.f {
+	case "fsync":
+		hit = point == "walstore:append:after-sync" && n == 0
+	case "prewrite":
+		hit = point == "walstore:append:before-write" && n == 0
+	case "norepair":
+		hit = point == "walstore:repair:before-truncate"
+	case "wmsyncf":
+		hit = point == "walstore:syncdir:after-sync" && n == 0
+	case "rotatef":
+		// the first Close of a writer inside a flush that runs the cleanup is the rotation
+		hit = point == "walstore:writer:after-close" && n == 0 && in.cleanup
+	case "unlinkf":
+		hit = point == "walstore:cleanup:before-remove" && n == in.k
+	case "closewriter":
+		// Close without cleanup: the only writer.Close is the one of wal.close()
+		hit = in.op == "close" && !in.cleanup && point == "walstore:writer:after-close"
+	case "closewriter-norepair":
+		hit = in.op == "close" && !in.cleanup && (point == "walstore:writer:after-close" || point == "walstore:repair:before-truncate")
+	}
+	if hit {
+		in.injected = true
+		return errInjected
+	}
+	return nil
+}
+
+func (r *runner) newInjector(o Op, bs []base) *injector {
+	in := &injector{r: r, f: o.F, k: -1, op: o.K, seen: map[string]int{}, cleanup: hasTag(bs, "tmp")}
+	if strings.HasPrefix(o.F, "unlinkf:") {
+		in.k, _ = strconv.Atoi(strings.TrimPrefix(o.F, "unlinkf:"))
+		in.f = "unlinkf"
+	}
 	if strings.HasPrefix(o.F, "unlink:") {
 		in.k, _ = strconv.Atoi(strings.TrimPrefix(o.F, "unlink:"))
 		in.f = "unlink"
@@ -1070,9 +1148,12 @@ func (r *runner) withFault(o Op, f func() error) error {
 			r.res.Hit("inject:create")
 		}
 		return err
-	case "append":
+	case "append", "norepair":
 		if !r.serial {
 			return f()
+		}
+		if o.F == "norepair" && o.S == 0 {
+			o.S = 7 // some bytes of the batch must reach the log: the model's state has a torn tail
 		}
 		// the log being appended to is the highest-numbered one if a writer is open; a new log
 		// otherwise. Allow S more bytes than it has now: the write of the batch fails part-way.
@@ -1154,6 +1235,24 @@ func (r *runner) exec(o Op) {
 		if !r.alive {
 			return
 		}
+		if o.Q && o.K == "flush" && o.F == "" {
+			// the run-up to a cleanup: outcomes only
+			err := guard(r.real.st.Flush)
+			m := r.ask(o.String())
+			r.res.Compared(1)
+			r.res.Hit("op:quiet-flush")
+			if cls(err) != mcls(m) {
+				r.mismatch("outcome:flush", o.String(), m, fmt.Sprint(err))
+			}
+			if err == nil && !r.closed {
+				r.acked = append(r.acked, r.calls...)
+				r.calls = nil
+			}
+			return
+		}
+		if _, lerr := r.real.observe(r.real.db, true); lerr != nil {
+			r.res.Fatalf("%s step %d: observe: %v", r.name, len(r.log), lerr)
+		}
 		wasClosed := r.closed
 		bs := r.basesOf(o.K, o.F)
 		if hasTag(bs, "tmp") {
@@ -1168,7 +1267,8 @@ func (r *runner) exec(o Op) {
 		preKnown := r.real.knownBatches()
 		watch := every || r.rng.Intn(6) == 0
 		r.hooked = nil
-		inj := r.newInjector(o)
+		inj := r.newInjector(o, bs)
+		failSink = inj.fail
 		hookSink = func(p string) {
 			if p == "walstore:flush:after-append-sync" {
 				// learn (and hard-link) the log just written: the same call may unlink it
@@ -1186,6 +1286,7 @@ func (r *runner) exec(o Op) {
 			return guard(r.real.st.Close)
 		})
 		hookSink = nil
+		failSink = nil
 		inj.restore()
 		if inj.injected {
 			r.res.Hit("inject:" + inj.f)
@@ -1194,28 +1295,41 @@ func (r *runner) exec(o Op) {
 		if oerr != nil {
 			r.res.Fatalf("observe: %v", oerr)
 		}
-		// which of the two histories does the live store show now?
+		// Did the batch reach the log? Decided on the disk (a record more than before), not by the
+		// model and not by the error value; the running store must then show exactly that history.
 		live, lerr := loadReal(r.real.st)
 		committed := err == nil
 		if err != nil && !wasClosed {
 			r.res.Hit(o.K + ":returned-error")
-			switch {
-			case lerr == nil && eq(live, preAcked) && eq(live, preBoth):
-				// the batch changes nothing visible: a batch more in the logs means it is committed
-				committed = r.real.knownBatches() > preKnown
-				if committed {
-					r.res.Hit(o.K + ":error-after-commit")
-				}
-			case lerr == nil && eq(live, preAcked):
-				committed = false
-			case lerr == nil && eq(live, preBoth):
-				committed = true
+			committed = r.real.knownBatches() > preKnown
+			if committed {
 				r.res.Hit(o.K + ":error-after-commit")
-			default:
-				committed = r.real.knownBatches() > preKnown
+			}
+			wantLive := preAcked
+			if committed {
+				wantLive = preBoth
+			}
+			if lerr != nil || !eq(live, wantLive) {
 				r.report(lib.Violation{Sig: "failed-flush-leaves-partial-state-in-memory",
-					What:   fmt.Sprintf("%s returned %v and LoadAllEntries shows neither the state before nor the state after the batch", o.K, err),
+					What:   fmt.Sprintf("%s returned %v, the batch is %s the log (committed=%v), but LoadAllEntries of the running store does not show that history", o.K, err, map[bool]string{true: "in", false: "not in"}[committed], committed),
 					Replay: r.replay(map[string]any{"live": live})})
+			}
+		}
+		if o.K == "flush" && !wasClosed {
+			// "does not make the log unusable": a flush without injected failure right after a failed
+			// one must succeed, unless the tail repair was made to fail (the writer is then blocked
+			// on purpose until a restart)
+			if o.F == "" && err != nil && r.lastFlushFailed && !r.blocked {
+				r.report(lib.Violation{Sig: "flush-fails-after-failed-flush",
+					What:   fmt.Sprintf("the flush after a failed flush fails too: %v", err),
+					Replay: r.replay(nil)})
+			}
+			if o.F == "" && err == nil && r.lastFlushFailed {
+				r.res.Hit("flush:ok-after-failed-flush")
+			}
+			r.lastFlushFailed = err != nil
+			if err != nil && (o.F == "norepair" || strings.HasSuffix(o.F, "-norepair")) {
+				r.blocked = true
 			}
 		}
 		straddle := false
@@ -1235,7 +1349,8 @@ func (r *runner) exec(o Op) {
 		}
 		m := r.ask(o.String())
 		r.res.Compared(1)
-		if cls(err) != mcls(m) || (err != nil && !wasClosed && (m == "err-committed") != committed) {
+		observable := !eq(preAcked, preBoth) || r.real.knownBatches() > preKnown
+		if cls(err) != mcls(m) || (err != nil && !wasClosed && observable && (m == "err-committed") != committed) {
 			r.mismatch("outcome:"+o.K, o.String(), m, fmt.Sprintf("%v committed=%v", err, committed))
 		}
 		if m == "err-notcommitted" || m == "err-committed" {
@@ -1278,6 +1393,7 @@ func (r *runner) exec(o Op) {
 		}
 		r.real.st = st
 		r.alive, r.closed = true, false
+		r.lastFlushFailed, r.blocked = false, false
 		r.calls = nil
 	case "crash":
 		r.crash(o)
@@ -1308,6 +1424,11 @@ func (r *runner) crash(o Op) {
 	if bs == nil {
 		return
 	}
+	// what the real directory holds before the interrupted operation starts
+	preReal, perr := r.real.observe(r.real.db, r.alive)
+	if perr != nil {
+		r.res.Fatalf("%s step %d: observe: %v", r.name, len(r.log), perr)
+	}
 	// run the interrupted operation on the real store so that the bytes it writes are known
 	if (cop == "flush" || cop == "close") && r.alive {
 		_ = r.withFault(Op{K: cop, F: o.F, S: o.S}, func() error {
@@ -1317,62 +1438,62 @@ func (r *runner) crash(o Op) {
 			return guard(r.real.st.Close)
 		})
 		if _, err := r.real.observe(r.real.db, true); err != nil {
-			r.res.Fatalf("observe: %v", err)
+			r.res.Fatalf("%s step %d: observe: %v", r.name, len(r.log), err)
 		}
-	}
-	idx := o.I % len(bs)
-	b := bs[idx]
-	nz := len(b.Disk.Zombies)
-	mask := o.M
-	if nz < 64 {
-		mask &= uint64(1)<<uint(nz) - 1
-	}
-	ms := maskStr(mask, nz)
-	if o.A > 0 {
-		ms = strings.Repeat("~", o.A%(nAlts(b.Disk)+1)) + ms
-	}
-	ans := r.ask(fmt.Sprintf("img %s %s %d %s", cop, fault(o.F), idx, ms))
-	parts := strings.SplitN(ans, " => ", 2)
-	img, err := parseDisk(parts[0])
-	if len(parts) != 2 || err != nil {
-		r.res.Fatalf("bad img answer %q", ans)
-		r.failed = true
-		return
 	}
 	tv := tailVariant{Kind: "junk", Off: 5}
 	if o.T != nil {
 		tv = *o.T
 	}
-	dir, err := r.real.materialise(img, tv, r.rng)
-	if err != nil {
-		if os.Getenv("VERIF_C14_DEBUG") != "" {
-			fmt.Fprintf(os.Stderr, "materialise %q: %v\nbookkeeping:", ans, err)
-			for n, fr := range r.real.files {
-				fmt.Fprintf(os.Stderr, " %d:%d", n, len(fr.ends)-1)
-			}
-			rd, _ := r.real.observe(r.real.db, false)
-			fmt.Fprintf(os.Stderr, "\nreal dir: %s\nmodel: %s\nlast ops: %v\n", rd, r.ask("disk"), r.log[max(0, len(r.log)-8):])
+	// the requested durable state, or — when it needs bytes that never reached the disk (the batch
+	// of a failing flush) — the nearest earlier one that can be built
+	want := o.I % len(bs)
+	idx, dir, ms := -1, "", ""
+	var img diskDesc
+	var b base
+	for try := want; try >= 0; try-- {
+		b = bs[try]
+		nz := len(b.Disk.Zombies)
+		mask := o.M
+		if nz < 64 {
+			mask &= uint64(1)<<uint(nz) - 1
 		}
-		// unknown bytes (batch of a failed flush): crash at the first durable state instead
-		idx, b = 0, bs[0]
-		ms = maskStr(mask, len(b.Disk.Zombies))
+		ms = maskStr(mask, nz)
 		if o.A > 0 {
 			ms = strings.Repeat("~", o.A%(nAlts(b.Disk)+1)) + ms
 		}
-		ans = r.ask(fmt.Sprintf("img %s %s %d %s", cop, fault(o.F), idx, ms))
-		parts = strings.SplitN(ans, " => ", 2)
-		img, _ = parseDisk(parts[0])
+		ans := r.ask(fmt.Sprintf("img %s %s %d %s", cop, fault(o.F), try, ms))
+		parts := strings.SplitN(ans, " => ", 2)
+		var err error
+		img, err = parseDisk(parts[0])
+		if len(parts) != 2 || err != nil {
+			r.res.Fatalf("%s step %d: bad img answer %q", r.name, len(r.log), ans)
+			r.failed = true
+			return
+		}
 		dir, err = r.real.materialise(img, tv, r.rng)
-		if err != nil {
-			r.res.Fatalf("%s step %d: cannot materialise crash image %q: %v", r.name, len(r.log), ans, err)
+		if err == nil {
+			idx = try
+			break
+		}
+		if !errors.Is(err, errNoBytes) {
+			r.res.Fatalf("%s step %d: cannot build crash image %q: %v", r.name, len(r.log), ans, err)
 			r.failed = true
 			return
 		}
 	}
+	if idx < 0 {
+		r.res.Fatalf("%s step %d: no durable state of %s %s can be built", r.name, len(r.log), cop, fault(o.F))
+		r.failed = true
+		return
+	}
+	if idx != want {
+		r.res.Hit("crash:earlier-state-taken-bytes-unknown")
+	}
 	r.res.Hit("crash:" + cop)
 	m := r.ask(fmt.Sprintf("crash %s %s %d %s", cop, fault(o.F), idx, ms))
 	if m != "ok" {
-		r.res.Fatalf("crash rejected by the model: %s", m)
+		r.res.Fatalf("%s step %d: crash rejected by the model: %s", r.name, len(r.log), m)
 		r.failed = true
 		return
 	}
@@ -1384,18 +1505,46 @@ func (r *runner) crash(o Op) {
 	r.real.db = dir
 	_ = os.RemoveAll(old)
 	_ = os.RemoveAll(old + "-links")
-	if b.Infl {
+	// Is the batch that was in flight part of the image? Decided on the directory just built, not
+	// by the model: some log holds more complete records than before the operation began.
+	before := map[uint64]int{}
+	for _, f := range preReal.Files {
+		before[f.Num] = f.Batches
+	}
+	built, oerr := r.real.observe(r.real.db, false)
+	if oerr != nil {
+		r.res.Fatalf("%s step %d: observe image: %v", r.name, len(r.log), oerr)
+	}
+	back := map[uint64]bool{} // logs that had been unlinked and came back with the crash
+	for _, z := range b.Disk.Zombies {
+		back[z.Num] = true
+	}
+	included := false
+	for _, f := range built.Files {
+		if !back[f.Num] && f.Batches > before[f.Num] {
+			included = true
+		}
+	}
+	r.res.Compared(1)
+	both := append(append([]call(nil), r.acked...), r.calls...)
+	if included != b.Infl && !eq(spec(r.acked), spec(both)) && (cop == "flush" || cop == "close") {
+		r.mismatch("crash-image-holds-batch-in-flight", o.String(), b.Infl, included)
+	}
+	if included {
 		r.acked = append(r.acked, r.calls...)
 	}
 	r.calls = nil
 	r.alive, r.closed = false, false
 	// the files of the new directory are the ones the bookkeeping knows (same bytes)
 	r.real.prev = map[uint64]bool{}
+	for _, fr := range r.real.files {
+		fr.cur = false
+	}
 	for _, f := range img.Files {
 		r.real.prev[f.Num] = true
-	}
-	if _, err := r.real.observe(r.real.db, false); err != nil {
-		r.res.Fatalf("observe image: %v", err)
+		if fr := r.real.files[f.Num]; fr != nil {
+			fr.cur = true
+		}
 	}
 }
 
@@ -1432,14 +1581,15 @@ func newRunner(name string, f lib.Flags, res *lib.Result, rng *lib.RNG, level in
 	return &runner{name: name, f: f, res: res, rng: rng, drv: drv, real: newRealSide(root), level: level, serial: serial, sweeps: sweeps}, nil
 }
 
-// report records a violation of this history. Only the first one counts: once the real store has
-// left the property, everything observed later in the same history is a consequence, and would be
-// named after its symptom rather than its cause.
+// report records a violation of this history, once per signature.
 func (r *runner) report(v lib.Violation) {
-	if r.tainted {
+	if r.sigs == nil {
+		r.sigs = map[string]bool{}
+	}
+	if r.sigs[v.Sig] {
 		return
 	}
-	r.tainted = true
+	r.sigs[v.Sig] = true
 	if r.viol != nil {
 		r.viol(v)
 		return
@@ -1506,6 +1656,12 @@ func main() {
 			f(p)
 		}
 	})
+	verifhook.SetFail(func(p string) error {
+		if f := failSink; f != nil {
+			return f(p)
+		}
+		return nil
+	})
 	if f.Replay != "" {
 		replayFile(f, res)
 		_ = os.RemoveAll(runRoot)
@@ -1540,6 +1696,11 @@ func main() {
 	add("fault", f.Scale(300, 1600), lvl, func(g *lib.RNG) []Op { return genShort(g, true) })
 	add("gc", f.Scale(60, 300), f.Scale(0, 1), func(g *lib.RNG) []Op { return genGC(g, false) })
 	add("gcfault", f.Scale(24, 120), f.Scale(0, 1), func(g *lib.RNG) []Op { return genGC(g, true) })
+	for i := 0; i < f.Scale(40, 300)*len(cleanupFaultKinds); i++ {
+		kind := cleanupFaultKinds[i%len(cleanupFaultKinds)]
+		g := rng.Fork(uint64(len(jobs)))
+		jobs = append(jobs, job{name: fmt.Sprintf("cfault-%d", i), ops: genCleanupFault(g, kind), level: 1, serial: true, seed: g.Uint64()})
+	}
 	// longest first within a shard would not help: interleave by index
 	t0 := time.Now()
 	n := 0
@@ -1560,6 +1721,7 @@ func main() {
 		runCodec(f, res, *shardFlag, *shardsFlag, runRoot)
 		if *shardFlag == 0 {
 			runGlue(res, runRoot)
+			runAlias(res, runRoot)
 		}
 		res.Note("shard %d/%d: byte-level codec / framing section in %.1fs", *shardFlag, *shardsFlag, time.Since(t1).Seconds())
 	}
